@@ -990,6 +990,20 @@ impl<'a> ExpressionLoweringManager<'a> {
       &source_fn_type.argument_types,
       &source_fn_type.return_type,
     );
+    // The context object may mention type parameters that do not occur in the lambda's own
+    // signature (e.g. `(d: int) -> int` capturing `k: K`): they are type parameters of the
+    // synthetic function too.
+    let type_parameters = {
+      let mut all: OrderSet<PStr> = type_parameters.into_iter().collect();
+      all.extend(collect_used_generic_types(
+        &hir::FunctionType {
+          argument_types: vec![context_type.dupe()],
+          return_type: Box::new(hir::INT_TYPE),
+        },
+        &self.type_lowering_manager.generic_types,
+      ));
+      all.into_iter().sorted().collect_vec()
+    };
     let fn_name = self.allocate_synthetic_fn_name();
     let mut manager = ExpressionLoweringManager::new(
       self.module_reference,
